@@ -345,6 +345,16 @@ fn limits(run: &Arc<Run>) {
             if vp_snap::snap_items(&back) != vp_snap::snap_items(&s) || back.crc() != s.crc() || !w.is_empty() {
                 return Err("copy differs".into());
             }
+            // the byte form too (its header, offsets and keys run through the variable-length
+            // integer code with values of every size)
+            let mut bytes: Vec<u8> = Vec::with_capacity(5 * 17000);
+            with_packer(&mut bytes, |p| s.write(&mut tmp, p).map(|b| b.len())).map_err(|_| "write: capacity".to_string())?;
+            let mut back_b = Snap::empty();
+            let mut ib = Vec::new();
+            back_b.read(&mut w, &mut ib, &bytes).map_err(|e| format!("re-read of the byte form fails: {:?}", e))?;
+            if vp_snap::snap_items(&back_b) != vp_snap::snap_items(&s) || back_b.crc() != s.crc() || !w.is_empty() {
+                return Err("copy read from bytes differs".into());
+            }
             for i in 0..n {
                 let t = if i % 5 == 4 { TypeId::Uuid(u[i % 3]) } else { TypeId::Ordinal(1 + (i % 3) as u16) };
                 if back.item(t, i as u16).map(|d| d.to_vec()) != s.item(t, i as u16).map(|d| d.to_vec()) {
@@ -360,6 +370,71 @@ fn limits(run: &Arc<Run>) {
             }
             Err(p) => {
                 run.violation(&format!("c10:{}", vp_core::panic_sig(&p)), &p, json!({"family": "item count", "n": n}));
+            }
+        }
+    }
+    // ids, data words, item counts and sizes on both sides of every length boundary of the
+    // variable-length integer code (6, 13, 20, 27 bits), through both wire forms
+    {
+        let mut words: Vec<i32> = vec![0, 1, -1, i32::MIN, i32::MAX];
+        for k in [6u32, 13, 20, 27] {
+            for d in [-1i32, 0, 1] {
+                words.push((1i32 << k) + d);
+                words.push(-(1i32 << k) + d);
+            }
+        }
+        let ids: Vec<u16> = vec![0, 62, 63, 64, 65, 8190, 8191, 8192, 8193, 16383, 16384, 65535];
+        // (item size in words, number of items): data_size = n * (4 + 4 * size) hits 8192 and its
+        // neighbours; offsets pass 8192 as well
+        let shapes: Vec<(usize, usize)> = vec![(1, 1023), (1, 1024), (3, 512), (3, 513), (7, 256), (2047, 1), (2046, 1), (2048, 1)];
+        let mut cases: Vec<(String, Vec<(TypeId, u16, Vec<i32>)>)> = Vec::new();
+        cases.push(("words".into(), words.iter().enumerate().map(|(i, w)| (TypeId::Ordinal(1 + (i % 3) as u16), i as u16, vec![*w, 7, w.wrapping_neg()])).collect()));
+        cases.push(("ids".into(), ids.iter().flat_map(|&id| [(TypeId::Ordinal(5), id, vec![id as i32]), (TypeId::Uuid(uuids()[0]), id, vec![1, 2])]).collect()));
+        for (size, n) in shapes {
+            cases.push((format!("shape-{}x{}", n, size), (0..n).map(|i| (TypeId::Ordinal(2), i as u16, (0..size).map(|w| (i * 31 + w) as i32).collect())).collect()));
+        }
+        for (name, items) in cases {
+            run.add_evals(1);
+            let r = vp_core::catch(|| -> Result<(), String> {
+                let mut b = Builder::new();
+                for (t, id, d) in &items {
+                    b.add_item(*t, *id, d).map_err(|e| format!("refused: {:?}", e))?;
+                }
+                let s = b.finish();
+                let mut tmp = Vec::new();
+                let mut w: Vec<Warning> = Vec::new();
+                let mut ints = vec![0i32; 17000];
+                let len = s.write_to_ints(&mut tmp, &mut ints).map_err(|_| "capacity".to_string())?.len();
+                let mut back = Snap::empty();
+                back.read_from_ints(&mut w, &ints[..len]).map_err(|e| format!("re-read of the int form fails: {:?}", e))?;
+                let mut bytes: Vec<u8> = Vec::with_capacity(5 * 17000);
+                with_packer(&mut bytes, |p| s.write(&mut tmp, p).map(|b| b.len())).map_err(|_| "write: capacity".to_string())?;
+                let mut back_b = Snap::empty();
+                let mut ib = Vec::new();
+                back_b.read(&mut w, &mut ib, &bytes).map_err(|e| format!("re-read of the byte form fails: {:?}", e))?;
+                for (which, c) in [("ints", &back), ("bytes", &back_b)] {
+                    if vp_snap::snap_items(c) != vp_snap::snap_items(&s) || c.crc() != s.crc() {
+                        return Err(format!("copy read from {} differs", which));
+                    }
+                    for (t, id, d) in &items {
+                        if c.item(*t, *id) != Some(&d[..]) {
+                            return Err(format!("lookup of ({:?}, {}) in the copy read from {} differs", t, id, which));
+                        }
+                    }
+                }
+                if !w.is_empty() {
+                    return Err(format!("warnings: {:?}", w));
+                }
+                Ok(())
+            });
+            match r {
+                Ok(Ok(())) => run.class("limit:integer-length-boundaries", || json!({"case": name})),
+                Ok(Err(d)) => {
+                    run.violation(&format!("c10:limit:boundary-values:{}", d.split('(').next().unwrap_or("").trim()), &format!("{}: {}", name, d), json!({"family": "integer length boundaries", "case": name}));
+                }
+                Err(p) => {
+                    run.violation(&format!("c10:{}", vp_core::panic_sig(&p)), &p, json!({"family": "integer length boundaries", "case": name}));
+                }
             }
         }
     }
@@ -524,7 +599,7 @@ fn main() {
         .reduce(LocalClasses::new, |a, b| a.merge(b));
     run.merge_classes(lc);
     run.finish(
-        &format!("all builder scripts of length <= {} over add_item(type in {{ordinal 1, ordinal 2, 3 UUID types}}, id in {{0,1,65535}}, data in {{[],[7],[1,2,3]}}) (an add the builder refuses leaves the reference map unchanged and the builder stays in use): written to bytes and ints, read back, compared through items(), item(type,id) for every key of the alphabet and crc(); copies obtained by delta from the empty snapshot and from the script prefix; the wire forms read again into objects that already hold the same / another snapshot; received copy recycled (known UUID types keep their number, a new one gets a fresh one), then two more generations in which the UUID types lie dormant and are used again; item-count and size limit families; 200..511 distinct UUID types round-tripped, recycled (original and copy), every known type used again and one more registered; every script of length <= {} on a builder prefilled to 0..48 bytes below the 64 KiB limit or to 1020..1024 items", depth, ldepth),
+        &format!("all builder scripts of length <= {} over add_item(type in {{ordinal 1, ordinal 2, 3 UUID types}}, id in {{0,1,65535}}, data in {{[],[7],[1,2,3]}}) (an add the builder refuses leaves the reference map unchanged and the builder stays in use): written to bytes and ints, read back, compared through items(), item(type,id) for every key of the alphabet and crc(); copies obtained by delta from the empty snapshot and from the script prefix; the wire forms read again into objects that already hold the same / another snapshot; received copy recycled (known UUID types keep their number, a new one gets a fresh one), then two more generations in which the UUID types lie dormant and are used again; item-count and size limit families (int and byte form); ids, data words, item counts and sizes on both sides of every length boundary of the variable-length integer code; 200..511 distinct UUID types round-tripped, recycled (original and copy), every known type used again and one more registered; every script of length <= {} on a builder prefilled to 0..48 bytes below the 64 KiB limit or to 1020..1024 items", depth, ldepth),
         true,
     );
 }
